@@ -12,6 +12,8 @@ for d in sorted(glob.glob(os.path.join(VERIF, "seeded", "*"))):
     rows.append(f"| {os.path.basename(d)} | {m.get('property','')} | {esc(m.get('summary',''))[:220]} | {esc(m.get('needs',''))[:160]} | {caught} |")
 hrows = ["| rewrite | what it does | functions | checks run | alarms |", "|---|---|---|---|---|"]
 for d in sorted(glob.glob(os.path.join(VERIF, "seeded", "harmless", "*"))):
+    if not os.path.isdir(d):
+        continue
     m = json.load(open(os.path.join(d, "meta.json")))
     esc = lambda s: str(s).replace("|", "\\|").replace("\n", " ")
     hrows.append(f"| {os.path.basename(d)} | {esc(m.get('summary',''))[:220]} | {esc(', '.join(m.get('functions', [])))[:120]} | {len(m.get('checks', {}))} | {', '.join(m.get('alarms', [])) or 'none'} |")
